@@ -4,5 +4,6 @@ CONSTANTS
 SPECIFICATION Spec
 INVARIANT ScanRefinesMatch
 INVARIANT CriteriaPartition
+INVARIANT TableRow
 INVARIANT Obl
 CHECK_DEADLOCK FALSE
